@@ -77,13 +77,20 @@ func checkC16(c *Check) {
 		bad := ""
 		n := 0
 		ast.Inspect(fi.Decl.Body, func(x ast.Node) bool {
-			bs, ok := x.(*ast.BlockStmt)
-			if !ok {
+			var list []ast.Stmt
+			switch bs := x.(type) {
+			case *ast.BlockStmt:
+				list = bs.List
+			case *ast.CaseClause:
+				list = bs.Body
+			case *ast.CommClause:
+				list = bs.Body
+			default:
 				return true
 			}
 			type cp struct{ dst, src, field string }
 			var copies []cp
-			for _, st := range bs.List {
+			for _, st := range list {
 				as, ok := st.(*ast.AssignStmt)
 				if !ok || len(as.Lhs) != len(as.Rhs) {
 					continue
@@ -1288,7 +1295,6 @@ func containsErrorOperand(v ssa.Value, seen map[ssa.Value]bool, depth int) bool 
 	}
 	return false
 }
-
 
 // c16JudgeAtCallers: body belongs to an unexported function of pk whose parameter prm supplies the basic code; every
 // call site in the package must pass a constant that is coherent with the enhanced class ench.
